@@ -78,13 +78,13 @@ def cut_jobs(thorough, flavor):
             total = CUT_TOTAL[(d, tls)]
             for (et, batch) in ((1, 0), (0, 0), (1, 1), (0, 1)):
                 if thorough:
-                    stride = 1 if flavor == "plain" else (3 if flavor == "asan" else 7)
+                    stride = 1 if flavor == "plain" else (2 if flavor == "asan" else 4)
                     n = (total + stride - 1) // stride
                     per = 2800
                     for off in range(0, n, per):
                         jobs.append(dict(dir=d, tls=tls, et=et, batch=batch, frm=off * stride, count=min(per, n - off), stride=stride, tlsmax=13 if (et + batch) % 2 else 12))
                 else:
-                    want = 110
+                    want = 300
                     stride = max(1, total // want) | 1  # odd stride walks over all (variant, call) blocks
                     jobs.append(dict(dir=d, tls=tls, et=et, batch=batch, frm=(et * 2 + batch) * 3, count=want + 2, stride=stride, tlsmax=13 if (et + batch) % 2 else 12))
     return jobs
@@ -123,12 +123,26 @@ class Runner:
         return rr
 
 
-def _settle(ctx, runner, first, timeout):
+MAX_RERUNS = 6
+
+
+def _settle(ctx, runner, first, timeout, state):
     """Verdict discipline for one finished process: stall suspicions and abnormal ends are re-run
-    once in isolation; only a reproduced, logically characterised stall becomes a violation."""
+    once in isolation; only a reproduced, logically characterised stall becomes a violation.
+    A key that was already reproduced once is not re-run again for every further cell (the
+    further suspicions are recorded as observations), and the number of re-runs is capped."""
     ctx.ingest(first, where=f"({first.tag}, {first.flavor})")
     if not first.stalls and not first.bad:
         return
+    new_keys = [s["key"] for s in first.stalls if s["key"] not in state["confirmed"]]
+    if first.stalls and not new_keys and not first.bad:
+        ctx.obs("stall_suspicions_with_already_reproduced_key", len(first.stalls))
+        return
+    if state["reruns"] >= MAX_RERUNS:
+        what = first.bad or f"stall suspicion {new_keys[0]} ({first.tag}, {first.flavor})"
+        ctx.inconcl(what + f" — not re-run (cap of {MAX_RERUNS} isolated re-runs reached)")
+        return
+    state["reruns"] += 1
     again = runner.run(first.binary, first.args, timeout, first.tag + "-isolated")
     ctx.ingest(again, where=f"({again.tag}, {again.flavor})")
     ctx.obs("isolated_reruns")
@@ -147,7 +161,8 @@ def _settle(ctx, runner, first, timeout):
                 d["reproduced_in_isolation"] = keys2[s["key"]].get("detail")
                 d["flavor"] = first.flavor
                 ctx.violation(s["key"], s.get("what", "") + " [reproduced in an isolated re-run]", d)
-            else:
+                state["confirmed"].add(s["key"])
+            elif s["key"] not in state["confirmed"]:
                 ctx.inconcl(f"stall suspicion {s['key']} ({first.tag}, {first.flavor}) did not reproduce in isolation")
     if first.bad:
         if again.bad:
@@ -164,24 +179,31 @@ def run(ctx):
     stallms = 8000
     cell_timeout = 1500 if thorough else 420
     watchdogms = (cell_timeout - 120) * 1000
-    cells = stream_cells(ctx.seed, thorough)
+    # the secondary coordinates rotate with the seed: several sub-seeds widen the part of the matrix product that is visited
+    subseeds = [ctx.seed + 1000 * i for i in range(3 if thorough else 2)]
+    cells = []
     jobs = []
     for fl in flavors:
         b = bins[(H, fl)]
-        for c in cells:
-            cc = dict(c)
-            if thorough and fl == "tsan":
-                cc["bytes"] = max(200 * 1024, cc["bytes"] // 4)
-                cc["rbytes"] = max(50000, cc["rbytes"] // 4)
-            tag = f"cell{cc['cell']}-{'tls' if cc['tls'] else 'tcp'}-{cc['fault']}"
-            jobs.append(lambda b=b, cc=cc, tag=tag: runner.run(b, cell_args(cc, ctx.seed, ctx.tmp, stallms, watchdogms), cell_timeout, tag))
+        for sub in subseeds:
+            sc = stream_cells(sub, thorough)
+            if fl == flavors[0]:
+                cells += sc
+            for c in sc:
+                cc = dict(c)
+                if thorough and fl == "tsan":
+                    cc["bytes"] = max(200 * 1024, cc["bytes"] // 2)
+                    cc["rbytes"] = max(50000, cc["rbytes"] // 2)
+                tag = f"s{sub}-cell{cc['cell']}-{'tls' if cc['tls'] else 'tcp'}-{cc['fault']}"
+                jobs.append(lambda b=b, cc=cc, tag=tag, sub=sub: runner.run(b, cell_args(cc, sub, ctx.tmp, stallms, watchdogms), cell_timeout, tag))
         for j in cut_jobs(thorough, fl):
             tag = f"cut-{j['dir']}-{'tls' if j['tls'] else 'tcp'}-et{j['et']}b{j['batch']}-{j['frm']}"
             jobs.append(lambda b=b, j=j, tag=tag: runner.run(b, cut_args(j, ctx.seed, ctx.tmp, stallms), cell_timeout, tag))
     # big cells first so the pool drains evenly
     results = vf.run_many(ctx, jobs)
+    state = dict(confirmed=set(), reruns=0)
     for rr in results:
-        _settle(ctx, runner, rr, cell_timeout)   # isolated re-runs happen here, after the pool is idle
+        _settle(ctx, runner, rr, cell_timeout, state)   # isolated re-runs happen here, after the pool is idle
 
     ctx.rule = ("stream cell = (transport, TLS version, role, epoll mode, batching, sender threads, sessions, payload-size distribution, "
                 "shim short-count rate / I/O cap, socket buffer sizes, ioReadChunk, early-send count, end-of-session variant, fault kind) with "
@@ -204,7 +226,7 @@ def run(ctx):
                     "cut_cases_with_cut", "cut_cases_in_drain_loop", "cut_cases_with_cut_tx_tls", "cut_cases_with_cut_rx_tls",
                     "cut_cases_with_cut_rx_tcp")
     if thorough:
-        ctx.extra["single_cut_sweep"] = "plain flavor: every (variant, call, cut) of the 4096-byte script; asan every 3rd, tsan every 7th"
+        ctx.extra["single_cut_sweep"] = "plain flavor: every (variant, call, cut) of the 4096-byte script; asan every 2nd, tsan every 4th"
 
 
 def replay(ctx, path):
@@ -230,5 +252,5 @@ def replay(ctx, path):
             c["tlsmax"] = cell["tlsmax"]
             args = cell_args(c, cell.get("seed", ctx.seed), ctx.tmp, 8000, 600000)
         rr = runner.run(bins[(H, fl)], args, 900, "replay")
-        _settle(ctx, runner, rr, 900)
+        _settle(ctx, runner, rr, 900, dict(confirmed=set(), reruns=0))
     ctx.rule = "replay of one recorded case"
